@@ -5,6 +5,7 @@ import ast
 
 from sa.loader import recv, norm, norm1, walk_shallow, call_name, AnalysisError
 from sa.rulekit import nodes_where, node_calls, node_roots
+from sa.loader import norm1
 
 SIMULATE = 'simulator:Circuit._simulate'
 
@@ -19,17 +20,21 @@ class SimLoop:
         self.rd = ck.rdefs(SIMULATE, model)
         # --- evaluation site
         self.eval_nodes = nodes_where(g, lambda n: bool(node_calls(n, 'eval_block')))
-        if len(self.eval_nodes) != 1:
-            raise AnalysisError(rule, f"_simulate: expected exactly one eval_block() site, found "
-                                f"{len(self.eval_nodes)}")
+        if not self.eval_nodes:
+            raise AnalysisError(rule, "_simulate: no eval_block() site found")
+        # one entry per evaluation site: (node, name of the evaluated block, name of the result)
+        self.sites = []
+        for en in self.eval_nodes:
+            cs = node_calls(en, 'eval_block')
+            if len(cs) != 1 or not isinstance(cs[0].func.value, ast.Name):
+                raise AnalysisError(rule, "_simulate: eval_block() receiver is not a local variable")
+            res = None
+            if isinstance(en.ast, ast.Assign) and isinstance(en.ast.targets[0], ast.Name):
+                res = en.ast.targets[0].id
+            self.sites.append((en, cs[0].func.value.id, res))
         self.eval = self.eval_nodes[0]
-        c = node_calls(self.eval, 'eval_block')[0]
-        if not isinstance(c.func.value, ast.Name):
-            raise AnalysisError(rule, "_simulate: eval_block() receiver is not a local variable")
-        self.x = c.func.value.id                       # the block being evaluated
-        self.result = None
-        if isinstance(self.eval.ast, ast.Assign) and isinstance(self.eval.ast.targets[0], ast.Name):
-            self.result = self.eval.ast.targets[0].id
+        self.x = self.sites[0][1]                      # the block being evaluated (first site)
+        self.result = self.sites[0][2]
         # --- work-list W: the local receiving `|= <y>.oconnections`
         self.union_nodes = nodes_where(g, lambda n: self._union_of(n) is not None)
         names = {self._union_of(n)[0] for n in self.union_nodes}
@@ -38,7 +43,7 @@ class SimLoop:
         self.W = names.pop()
         # --- main loop head: the outermost loop test dominating the evaluation
         heads = [n for n in g.nodes if n.kind == 'test' and isinstance(n.stmt, ast.While)
-                 and g.dominates(n, self.eval)]
+                 and all(g.dominates(n, e) for e in self.eval_nodes)]
         if not heads:
             raise AnalysisError(rule, "_simulate: main loop not found")
         self.head = min(heads, key=lambda n: n.id)
@@ -102,3 +107,41 @@ class SimLoop:
         empty_w = g.has_guard(n, self.W, False) or g.has_guard(n, f"len({self.W}) == 0", True)
         empty_q = any(g.has_guard(n, f"{q}.empty()", True) for q in self.queue_aliases)
         return empty_w and empty_q
+
+
+def removed_implies_evaluated(ck, R3, sl):
+    """Every block taken out of the work-list reaches eval_block() in the same iteration, and every
+    evaluation follows a removal (shared by C01 R01.3 and C10 R10.7: a scheduled evaluation that is
+    dropped leaves the circuit idle in an inconsistent state)."""
+    from sa.report import path_witness
+    g, fi, W = sl.cfg, sl.fi, sl.W
+    removals = nodes_where(g, lambda n: any(
+        isinstance(c.func, ast.Attribute) and recv(c) == W and
+        c.func.attr in ('pop', 'discard', 'remove') for c in node_calls(n)) or
+        (isinstance(n.ast, ast.AugAssign) and isinstance(n.ast.op, ast.Sub)
+         and norm(n.ast.target) == W))
+    for r in removals:
+        # the removed element must be the one evaluated afterwards
+        c = [c for c in node_calls(r) if isinstance(c.func, ast.Attribute) and recv(c) == W]
+        rv = None
+        if c and c[0].func.attr == 'pop':
+            if isinstance(r.ast, ast.Assign) and isinstance(r.ast.targets[0], ast.Name):
+                rv = r.ast.targets[0].id
+        elif c and len(c[0].args) == 1 and isinstance(c[0].args[0], ast.Name):
+            rv = c[0].args[0].id
+        evals_rv = [e for e, x_, _ in sl.sites if x_ == rv]
+        p = g.path_avoiding(r, [sl.head, g.exit], avoid=evals_rv, start_successors_only=True)
+        okr = p is None and bool(evals_rv)
+        ck.ob(R3, f"{SIMULATE} :: {norm1(r.ast)}", okr,
+              f"the removed block `{rv}` reaches eval_block() on every path" if okr
+              else "a block can be removed from the work-list without being evaluated", fi, r.ast,
+              witness=path_witness(g, p))
+    ck.need(R3, removals, "_simulate: no removal from the work-list recognised")
+    # evaluated => it was removed (otherwise the loop never terminates; also a consistency check)
+    for e, x_, _ in sl.sites:
+        rem_x = [r for r in removals if x_ in {nm.id for nm in ast.walk(r.ast) if isinstance(nm, ast.Name)}]
+        p = g.path_avoiding(sl.head, [e], avoid=rem_x)
+        ck.ob(R3, f"{SIMULATE} :: evaluated => removed" + ('' if len(sl.sites) == 1 else f" ({norm1(e.ast)})"),
+              p is None, "every evaluation follows a removal in the same iteration" if p is None else
+              "eval_block() is reached without removing the block from the work-list", fi, e.ast,
+              witness=path_witness(g, p))
